@@ -181,6 +181,16 @@ func genRGBA(t *tape.Tape, cls int) color.RGBA {
 }
 
 // GenColor draws an ivg.Color of every kind the format knows.
+// wideIndex draws a palette / register index: the constructors take a byte
+// and index modulo 64, so one index in four carries high bits.
+func wideIndex(t *tape.Tape) uint8 {
+	i := uint8(t.Intn(64))
+	if t.Chance(1, 4) {
+		i |= uint8(1+t.Intn(3)) << 6
+	}
+	return i
+}
+
 func GenColor(t *tape.Tape) ivg.Color {
 	switch t.Pick(4, 2, 2, 2, 2, 2, 3, 3, 3, 1) {
 	case 0:
@@ -196,9 +206,9 @@ func GenColor(t *tape.Tape) ivg.Color {
 	case 5:
 		return ivg.RGBAColor(genRGBA(t, 5))
 	case 6:
-		return ivg.PaletteIndexColor(uint8(t.Intn(64)))
+		return ivg.PaletteIndexColor(wideIndex(t))
 	case 7:
-		return ivg.CRegColor(uint8(t.Intn(64)))
+		return ivg.CRegColor(wideIndex(t))
 	case 8:
 		return ivg.BlendColor(uint8(t.Intn(256)), uint8(t.Intn(256)), uint8(t.Intn(256)))
 	default:
